@@ -233,6 +233,30 @@ pub fn run(args: &Args) -> Report {
             steps.push(Step { ev: mk(&mut rng, author_n, kind, tags, k % 9), track: k % 4 == 0, remove_after: false });
             // one event larger than two growth steps of the backing file early in the history (the map grows by
             // several steps at once), referenced, with ordinary growth steps following it
+            // an event sized so that it ends within the last bytes of the backing file as it is now (0..7 bytes before
+            // the end, or exactly at it): referenced, and then the file grows under the following stores
+            if debug && (k == 9 || k == 23 || k == 41) {
+                let path = dir.join("event.map");
+                if let Ok(f) = std::fs::File::open(&path) {
+                    use std::os::unix::fs::FileExt;
+                    let mut hdr = [0u8; 8];
+                    if f.read_exact_at(&mut hdr, 0).is_ok() {
+                        let end = u64::from_le_bytes(hdr) as usize;
+                        let flen = f.metadata().map(|m| m.len() as usize).unwrap_or(0);
+                        let start = (end + 7) / 8 * 8;
+                        let slack = [0usize, 3, 7][(k / 9) % 3];
+                        let base = Ev::new(SemEvent { id: rng.arr32(), pubkey: crate::dbgen::author(7), sig: [1; 64], kind: 1, created_at: 997, tags: vec![], content: String::new() }).unwrap();
+                        if flen > start + base.bytes.len() + slack {
+                            let clen = flen - slack - start - base.bytes.len();
+                            let e = Ev::new(SemEvent { id: rng.arr32(), pubkey: crate::dbgen::author(7), sig: [1; 64], kind: 1, created_at: 997, tags: vec![], content: "z".repeat(clen) }).unwrap();
+                            if start + e.bytes.len() + slack == flen {
+                                steps.insert(0, Step { ev: e, track: true, remove_after: false });
+                                rep.count("referenced_events_ending_in_the_last_word_of_the_file");
+                            }
+                        }
+                    }
+                }
+            }
             if k == 6 && (debug || i % 3 == 1) {
                 let big = if debug { 5_300 } else { 9_500_000 };
                 let e = Ev::new(SemEvent { id: rng.arr32(), pubkey: crate::dbgen::author(5), sig: [1; 64], kind: 1, created_at: 999, tags: vec![], content: "L".repeat(big) }).unwrap();
@@ -360,6 +384,9 @@ pub fn run(args: &Args) -> Report {
         rep.require("tail_replacements_of_a_referenced_event", "no referenced event was replaced while it was the newest in the map");
         rep.require("tail_removals_of_a_referenced_event", "no referenced event was removed while it was the newest in the map");
         rep.require("events_larger_than_two_growth_steps", "no event larger than two growth steps was stored");
+        if debug {
+            rep.require("referenced_events_ending_in_the_last_word_of_the_file", "no referenced event ended within the last word of the backing file");
+        }
         rep.require("references_to_an_event_that_expired_while_referenced", "no referenced event passed its expiration time during the run");
     }
     rep
